@@ -35,3 +35,10 @@ package analysisutil
 //@   ensures store: istype(n, *ssa.Store) && called(f, cid) ==> cid.Context == n.(*ssa.Store).Parent().String() && cid.Kind == "store" && cid.Method == ""
 //@   ensures receive: istype(n, *ssa.UnOp) && called(f, cid) ==> cid.Context == n.(*ssa.UnOp).Parent().String() && cid.Kind == "channel receive" && n.(*ssa.UnOp).Op == token.ARROW
 //@   ensures other_kinds: !istype(n, *ssa.Call) && !istype(n, *ssa.Alloc) && !istype(n, *ssa.Field) && !istype(n, *ssa.FieldAddr) && !istype(n, *ssa.Store) && !istype(n, *ssa.UnOp) ==> !result
+
+// C07: FindSafeCalleePkg ("without panicking") never dereferences the nil package of a
+// synthetic callee.
+//@ func FindSafeCalleePkg
+//@   property C07
+//@   option havoc:*
+//@   nilsafe ssa.Function.Pkg
